@@ -470,12 +470,14 @@ class QObj(Obj):
 class EnsembleStart(CompoundStart):
     qual = 'EnsembleServlet.start'
     wiring = 'ensemble'
+    assumed_contracts = ('self._reset(): unit C11:EnsembleServlet._reset',)
     canaries = (('pinned-tree defect: members left running', '                for ss in self._servlets[:i]:\n                    ss.stop()', '                pass', 'nothing is left running'),)
 
 
 class SwitchStart(CompoundStart):
     qual = 'SwitchServlet.start'
     wiring = 'switch'
+    assumed_contracts = ('self._reset(): unit C11:SwitchServlet._reset',)
     canaries = ()
 
 
@@ -487,6 +489,7 @@ class CompoundStop(Unit):
     qual = 'EnsembleServlet.stop'
     assert_mode = 'assume'
     nthreads = 2
+    assumed_contracts = ('self._reset(): unit C11:EnsembleServlet._reset',)
     canaries = (('pinned-tree defect: members stopped before the forwarding thread has drained', '        self._qin.put(None)\n        self._threads[1].join()\n', '', 'behind every pending input'),
                 ('helper threads not joined', '        for t in self._threads:\n            t.join()', '        pass', 'joined'))
 
@@ -593,6 +596,7 @@ class ThreadList(Obj):
 class SwitchStop(CompoundStop):
     qual = 'SwitchServlet.stop'
     nthreads = 1
+    assumed_contracts = ('self._reset(): unit C11:SwitchServlet._reset',)
     canaries = (('pinned-tree defect: members stopped first', '        self._qin.put(None)\n        self._thread_enqueue.join()\n', '', 'behind every pending input'),)
 
     @property
@@ -1002,8 +1006,62 @@ class StopProtocolLemma(LemmaUnit):
                base + [pipe, writers >= 2], z3.Not(blocked))
 
 
+
+# ================================================================ _reset of the compound servlets (what start()/stop() rely on when the same servlet object is used again)
+class EnsembleReset(Unit):
+    """EnsembleServlet._reset: after it, nothing of an earlier run is left -- input/output queue references are None, the per-member queue lists, the
+    thread list and the table of partial results are NEW EMPTY containers (start() appends to the lists: a list kept from an earlier run would wire
+    the new members to the old queues as well; a kept table would merge an old request's partial results into a new request with a recycled id)."""
+    prop = 'C11'
+    file = 'mpserver/_servlet.py'
+    qual = 'EnsembleServlet._reset'
+    none_fields = ('_qin', '_qout')
+    list_fields = ('_qins', '_qouts', '_threads')
+    dict_fields = ('_uid_to_results',)
+    canaries = (('per-member input queues kept from the earlier run', '        self._qins = []\n        self._qouts = []', '        self._qouts = []', ''),
+                ('table of partial results kept', '        self._uid_to_results = {}', '        pass', ''),
+                ('thread list kept', '        self._threads = []', '        pass', ''))
+
+    def setup(self, ex):
+        st = St()
+        old = {f: z3.Const('old' + f, Val) for f in self.none_fields + self.dict_fields}
+        old.update({f: z3.Const('old' + f, SeqV) for f in self.list_fields})
+        for f in self.list_fields:
+            st.assume(z3.Length(old[f]) > 0)                  # an earlier run left something in every container
+        for f in self.none_fields:
+            st.assume(old[f] != NONE)
+        self.me = Rec(ex, 'self').init(st, **old)
+        st.env['self'] = self.me
+        return st
+
+    def post(self, ex, outs):
+        for k, s, p in outs:
+            if k not in ('normal', 'return'):
+                ex.oblige(s, 'exit: _reset does not raise', False)
+                continue
+            for f in self.none_fields:
+                ex.oblige(s, f'exit: {f} is None', box(ex, self.me.get(s, f)) == NONE)
+            for f in self.list_fields:
+                v = self.me.get(s, f)
+                ex.oblige(s, f'exit: {f} is an empty list', v == V.EMPTY if z3.is_expr(v) and v.sort() == SeqV else z3.BoolVal(False))
+            for f in self.dict_fields:
+                v = self.me.get(s, f)
+                ex.oblige(s, f'exit: {f} is a new empty dict', z3.BoolVal(isinstance(v, DictVal) and not v.items and v.pack is None))
+
+
+class SwitchReset(EnsembleReset):
+    """SwitchServlet._reset: queue references and the feeder thread are None, the per-member input queue list is a new empty list."""
+    qual = 'SwitchServlet._reset'
+    none_fields = ('_qin', '_qout', '_thread_enqueue')
+    list_fields = ('_qins',)
+    dict_fields = ()
+    canaries = (('per-member input queues kept from the earlier run', '        self._qins = []\n        self._thread_enqueue = None', '        self._thread_enqueue = None', ''),)
+
+
+UNITS_RESET = [EnsembleReset, SwitchReset]
+
 from contracts.ctors import SERVLET_CTORS      # noqa: E402
-UNITS = list(SERVLET_CTORS) + [EnterServer, EnterServerThreadQ, SimpleStart, ThreadStart, SimpleStop, ThreadStop, CompoundStart, EnsembleStart, SwitchStart, CompoundStop, SwitchStop, SequentialStop,
+UNITS = list(SERVLET_CTORS) + UNITS_RESET + [EnterServer, EnterServerThreadQ, SimpleStart, ThreadStart, SimpleStop, ThreadStop, CompoundStart, EnsembleStart, SwitchStart, CompoundStop, SwitchStop, SequentialStop,
          ServerExit, ServerExitThreadQ, AServerExit, OnboardUnit, WorkerRun, ServerEnterUnit, AServerEnterUnit, StopProtocolLemma]
 # stopping completely: the end marker travels input queue -> every worker loop (ends on it and passes it on; Worker.start re-broadcasts it for its siblings) -> output queue -> gather thread (ends on it)
 from contracts.worker import UNITS_SINGLE, UNITS_BATCH      # noqa: E402
